@@ -673,6 +673,10 @@ namespace Pistache::Http::Experimental
 
     void Connection::handleError(const char* error)
     {
+        // Whatever was received so far belongs to the failed exchange: the
+        // connection goes back to the pool with a clean parser.
+        parser.reset();
+
         if (requestEntry)
         {
             if (requestEntry->timer)
